@@ -16,9 +16,10 @@
 (*   geo   geometry attributes (see below), lengths as <<kind, value>>:    *)
 (*         <<"none", 0>> omitted, <<"abs", r>> user units, <<"pct", p>>    *)
 (*   paint presentation attributes (DocPaint), <<>> when not modelled      *)
-(* context <<ctm, vpw, vph, hidden, paint>>                                *)
+(* context <<ctm, vpw, vph, hidden, paint, vchain>>  (vchain = the product *)
+(*         of the enclosing viewport transforms alone)                     *)
 (* rendered shape <<kind, geometry (PathOps abstraction, user space),      *)
-(*                  ctm, paint, id>>                                       *)
+(*                  ctm, paint, id, vchain>>                               *)
 (***************************************************************************)
 EXTENDS Affine
 SH == INSTANCE Shapes
@@ -86,20 +87,20 @@ RenderElem(doc, i, ctx, cfg, budget) ==
       pp     == PaintOf(ctx[5], tok, ctm0)
   IN
   IF tag \in {"g", "defs"} THEN
-       RenderSeq(doc, i + 1, <<ctm0, ctx[2], ctx[3], hidden \/ tag = "defs", pp[1]>>, cfg, budget)
+       RenderSeq(doc, i + 1, <<ctm0, ctx[2], ctx[3], hidden \/ tag = "defs", pp[1], ctx[6]>>, cfg, budget)
   ELSE IF tag = "svg" THEN
        LET v == SvgViewport(tok[5], ctx[2], ctx[3], i = 1, cfg[1], cfg[2]) IN
-       RenderSeq(doc, i + 1, <<Then(v[1], ctm0), v[2], v[3], hidden \/ ~v[4], pp[1]>>, cfg, budget)
+       RenderSeq(doc, i + 1, <<Then(v[1], ctm0), v[2], v[3], hidden \/ ~v[4], pp[1], Then(v[1], ctx[6])>>, cfg, budget)
   ELSE IF tag = "use" THEN
        LET k == IndexOfId(doc, tok[5][1])
            cu == Then(Translate(Len0(tok[5][2], ctx[2], RZero), Len0(tok[5][3], ctx[3], RZero)), ctm0)
        IN <<i + 1, IF k = 0 \/ budget = 0 THEN <<>>
-                   ELSE RenderElem(doc, k, <<cu, ctx[2], ctx[3], hidden, pp[1]>>, cfg, budget - 1)[2]>>
+                   ELSE RenderElem(doc, k, <<cu, ctx[2], ctx[3], hidden, pp[1], ctx[6]>>, cfg, budget - 1)[2]>>
   ELSE IF tag \notin ShapeTags THEN <<i + 1, <<>>>>      \* image, text, ...: a leaf that contributes no shape
   ELSE \* a shape
        LET segs == ShapeSegs(tok, ctx[2], ctx[3]) IN
        <<i + 1, IF hidden \/ segs = <<>> THEN <<>>
-                ELSE <<<<tag, PO!Geometry(segs), ctm0, pp[2], tok[2]>>>>>>
+                ELSE <<<<tag, PO!Geometry(segs), ctm0, pp[2], tok[2], ctx[6]>>>>>>
 
 RenderSeq(doc, i, ctx, cfg, budget) ==
   IF i > Len(doc) THEN <<i, <<>>>>
@@ -110,7 +111,7 @@ RenderSeq(doc, i, ctx, cfg, budget) ==
 
 \* the whole document: token 1 is the root svg
 RenderDoc(doc, cfg, paint0) ==
-  RenderElem(doc, 1, <<TF(cfg[3]), R(0), R(0), FALSE, paint0>>, cfg, 3)[2]
+  RenderElem(doc, 1, <<TF(cfg[3]), R(0), R(0), FALSE, paint0, Id>>, cfg, 3)[2]
 
 \* ---- well-formedness of a token sequence --------------------------------------
 RECURSIVE DepthAt(_, _)
